@@ -8,10 +8,16 @@ FUNCTIONS = ["control.succession_control", "control.successions_to_target", "con
 
 
 def run_task(task):
+    if task["params"].get("mode") == "models":
+        from checks import c06_models
+        return c06_models.run_task(task)
     return cc.run_task(task, PROP, PROP)
 
 
 def replay(rec):
+    if rec["params"].get("mode") == "models":
+        from checks import c06_models
+        return c06_models.replay(rec)
     return cc.replay(rec, PROP)
 
 
@@ -47,6 +53,16 @@ def tasks(tier, seed, selftest=False):
             for fam in ("S1C2", "B21"):
                 add(fam, (), 900, strat)
             add("U3", (), 600, strat, cube_k=4, nbits=24)
+    # published models: successful interventions towards minimal trap spaces of the model, decided by z3
+    # (checks/c06_models.py)
+    import glob
+    import os
+    mdir = os.path.join(os.environ.get("VERIF_REPO", "/repo"), "models/bbm-bnet-inputs-true")
+    paths = sorted(glob.glob(os.path.join(mdir, "*.bnet")), key=os.path.getsize)
+    paths = paths[:120] if q else paths
+    for i in range(0, len(paths), 10 if q else 3):
+        T.append({"prop": PROP, "family": "-", "label": "models/control", "timebox": 20 if q else 200, "seed": seed,
+                  "params": {"mode": "models", "models": paths[i:i + (10 if q else 3)], "cap_s": 30 if q else 150}})
     return T
 
 
@@ -55,6 +71,7 @@ def main(tier, seed, t0, selftest=False):
     return common.finish(PROP, tier, seed, "model_checking", results, t0, selftest=selftest, functions=FUNCTIONS,
                          bounds={"symbolic": "network, target (any non-empty subspace), strategy, max_drivers_per_succession_node in None/0..n, forbidden set (any subset), skip_feedforward_successions" + ("; prefix histories " + str(cc.PREFIXES) if PROP == "C06" else "; fresh diagram"),
                                  "families": "U2, D3 (+S1C2 with a source variable) time-boxed; thorough adds B21 and U3 cubes",
+                                 "published models": "120 smallest models (quick) / all 210 (thorough): successful interventions (both strategies; strategy all with at most 1 driver per step) towards the first two minimal trap spaces: motif chain nested and closed (validated Petri net), every listed override's domain of influence contains the motif (z3 least fixed point over all states), final trap space consistent with the target and all minimal trap spaces inside it (enumerated by z3) inside the target; the attractor-reachability clause is not decided on these models",
                                  "semantics": "overridden network = update functions of the override's variables replaced by constants; REACH/ATTR of that network by repeated squaring over the symbolic truth table"},
                          assumptions=["AEON Percolation.percolate_subspace = PERC (every answer is an observation checked on the representative)",
                                       "contract stubs of DESIGN.md §8"])
